@@ -323,6 +323,26 @@ class C11:
             c["gattr"] = rng.choice([0, 0, 3, 7])
             c["dflt"] = rng.choice([0, 1])
             c["idattr"] = (j % 40 == 5)       # a node attribute named like the id key (known finding D27)
+            # node RECORDS with named attributes (model: DynetxModel/NodeLinkAttrs.lean): 12 attribute names, the id key
+            # is one of them; a clash (an attribute named like the id key) only in every 40th case (D27)
+            idk = rng.choice([0, 0, 0, 1, 2, 7, 5, 6])
+            clash = (j % 40 == 7)
+            names = [k for k in range(12) if k != idk]
+            nodes = []
+            for n in rng.sample(range(0, 9), rng.choice([1, 2, 3, 4])):
+                ks = rng.sample(names, rng.choice([0, 1, 2, 3]))
+                if clash and not any(idk in [k for k, _ in a] for _, a in nodes):
+                    ks.insert(rng.randrange(len(ks) + 1), idk)
+                nodes.append((n, [(k, rng.randrange(10)) for k in ks]))
+            c["recs"] = [idk, nodes]
+            recs = []
+            for _ in range(rng.choice([1, 2, 3, 4])):
+                ks = rng.sample(range(12), rng.choice([0, 1, 2, 3]))
+                r = [(k, 1 if k == idk and rng.random() < 0.8 else 0, rng.randrange(5)) for k in ks]
+                if rng.random() < 0.6 and idk not in ks:
+                    r.insert(rng.randrange(len(r) + 1), (idk, 1, rng.randrange(5)))
+                recs.append(r)
+            c["imp"] = [idk, recs]
             yield c
 
     @staticmethod
@@ -336,6 +356,11 @@ class C11:
               "nlrt 0 2 %d 0" % case["dflt"], "dump 2", "nlrt2 0 3", "dump 3", "pres 3 %d %d" % (lo, hi), "dump 0"]
         if case.get("idattr"):
             L.append("nlidattr 0")
+        if case.get("recs"):
+            idk, nodes = case["recs"]
+            L.append(("nlrecs %d %d " % (idk, len(nodes)) + " ".join("%d %d %s" % (n, len(a), " ".join("%d %d" % kv for kv in a)) for n, a in nodes)).rstrip().replace("  ", " "))
+            idk, recs = case["imp"]
+            L.append(("nlimp %d %d " % (idk, len(recs)) + " ".join("%d %s" % (len(r), " ".join("%d %d %d" % e for e in r)) for r in recs)).rstrip().replace("  ", " "))
         return L
 
     @staticmethod
@@ -383,6 +408,23 @@ class C11:
             fails.append(F("C11.source_changed"))
         if case.get("idattr") and outs[i + 12] != "ok":
             fails.append(F("C11.attribute_named_like_id_key", got=outs[i + 12]))
+        if case.get("recs"):
+            o = outs[i + 12 + (1 if case.get("idattr") else 0)]
+            idk, nodes = case["recs"]
+            want = [[1, n, [[k, 0, v] for k, v in a]] for n, a in nodes]
+            kept = [[1, n, [[k, 0, v] for k, v in a if k != idk]] for n, a in nodes]
+            if not isinstance(o, dict):
+                fails.append(F("C11.node_records", got=o))
+            else:
+                # every node is listed with its id under the id key and with its attributes
+                for (n, a), r in zip(nodes, o["recs"] + [None] * len(nodes)):
+                    if r is None or [idk, 1, n] not in r or any([k, 0, v] not in r for k, v in a if k != idk):
+                        fails.append(F("C11.node_records", where="data", node=n, attrs=a, got=r)); break
+                if o["back"] != want:
+                    if o["back"] == kept:
+                        fails.append(F("C11.attribute_named_like_id_key", got="attribute-lost", where="records", id_key=idk))
+                    else:
+                        fails.append(F("C11.node_records", where="rebuilt", expected=want, got=o["back"]))
         return fails
 
     @staticmethod
